@@ -195,6 +195,26 @@ theorem finalState_eq (p : Params α) (kCN k : Nat) (l : List α) (s : State α)
       congr 1
       omega
 
+/-- the trajectory from column `j` on is the trajectory started at that column's state -/
+theorem trajList_drop (p : Params α) (kCN : Nat) (l : List α) (k : Nat) (s : State α) (j : Nat)
+    (sj : State α) (h : (trajList p kCN k l s)[j]? = some sj) :
+    trajList p kCN (k + j) (l.drop j) sj = (trajList p kCN k l s).drop j ∧
+    finalState p kCN (k + j) (l.drop j) sj = finalState p kCN k l s := by
+  induction l generalizing k s j with
+  | nil => simp [trajList] at h
+  | cons T r ih =>
+    cases j with
+    | zero =>
+      simp only [trajList, List.getElem?_cons_zero, Option.some.injEq] at h
+      subst h
+      simp
+    | succ j' =>
+      simp only [trajList, List.getElem?_cons_succ] at h
+      have := ih (k + 1) (step p kCN k T s) j' h
+      have e : k + (j' + 1) = k + 1 + j' := by omega
+      rw [e]
+      simpa [trajList, finalState] using this
+
 end
 
 end Snow.FlakeLemmas
